@@ -49,15 +49,25 @@ def _empty_init(s: ast.stmt) -> Optional[Tuple[str, str]]:
         name, v = s.target.id, s.value
     else:
         return None
+    if isinstance(v, ast.Dict) and not v.keys:
+        return name, 'dict'
     if isinstance(v, ast.List) and not v.elts:
         return name, 'list'
     if isinstance(v, ast.Call) and isinstance(v.func, ast.Name) and not v.args and \
-            not v.keywords and v.func.id in ('list', 'set'):
+            not v.keywords and v.func.id in ('list', 'set', 'dict'):
         return name, v.func.id
     return None
 
 
 def _append_of(s: ast.stmt, x: str, kind: str) -> Optional[ast.AST]:
+    if kind == 'dict':
+        # X[K] = V  -> the pair (K, V)
+        if isinstance(s, ast.Assign) and len(s.targets) == 1 and \
+                isinstance(s.targets[0], ast.Subscript) and \
+                isinstance(s.targets[0].value, ast.Name) and s.targets[0].value.id == x and \
+                not isinstance(s.targets[0].slice, ast.Slice):
+            return ast.Tuple([s.targets[0].slice, s.value], ast.Load())
+        return None
     if isinstance(s, ast.Expr) and isinstance(s.value, ast.Call) and \
             isinstance(s.value.func, ast.Attribute) and \
             isinstance(s.value.func.value, ast.Name) and s.value.func.value.id == x and \
@@ -240,7 +250,12 @@ class _Norm:
                             else [c])
             conds = [ast.BoolOp(ast.And(), flat)]
         gen = ast.comprehension(copy.deepcopy(loop.target), copy.deepcopy(loop.iter), conds, 0)
-        node = ast.ListComp(elt, [gen]) if kind == 'list' else ast.SetComp(elt, [gen])
+        if kind == 'dict':
+            if not (isinstance(elt, ast.Tuple) and len(elt.elts) == 2):
+                return None
+            node = ast.DictComp(elt.elts[0], elt.elts[1], [gen])
+        else:
+            node = ast.ListComp(elt, [gen]) if kind == 'list' else ast.SetComp(elt, [gen])
         return ast.copy_location(node, loop)
 
 
